@@ -19,6 +19,18 @@ theorem Float64_rnd_mono (n1 d1 n2 d2 : Nat) (hd1 : 0 < d1) (hd2 : 0 < d2) (h : 
 theorem Float64_premium_mono {a a' r r' d d' : Nat} (ha : a ≤ a') (hr : r ≤ r') (hd : d ≤ d') :
     premium a r d ≤ premium a' r' d' := premium_mono ha hr hd
 
+/-- `premiumInt` on a non-negative amount is `premium` whenever the result fits an `int64` -/
+theorem Float64_premiumInt_of_nonneg (a rate dur : Nat) (h : premium a rate dur < 2 ^ 63) :
+    premiumInt (a : Int) rate dur = (premium a rate dur : Int) := premiumInt_of_nonneg a rate dur h
+
+/-- `premiumInt` is odd in the amount (IEEE sign symmetry, truncation toward zero) -/
+theorem Float64_premiumInt_neg (a rate dur : Nat) (h : premium a rate dur ≤ 2 ^ 63) :
+    premiumInt (-(a : Int)) rate dur = -(premium a rate dur : Int) := premiumInt_neg a rate dur h
+
+/-- non-vacuity: a negative amount, and the amd64 out-of-range value -/
+example : premiumInt (-100000) 2000 144 = -28 ∧ premium 100000 2000 144 ≤ 2 ^ 63 ∧
+    premiumInt 9223372036854775807 4294967295 4294967295 = -(2 ^ 63) := by decide
+
 /-- a rounded positive value is a 53-bit significand: `2^52 ≤ m ≤ 2^53` -/
 theorem Float64_rnd_significand (n d : Nat) (hn : 0 < n) (hd : 0 < d) :
     2 ^ 52 ≤ (rnd n d).m ∧ (rnd n d).m ≤ 2 ^ 53 := rnd_sig_bounds n d hn hd
